@@ -14,6 +14,7 @@ import TLX.Quic.Varint
 import TLX.Quic.Session
 import TLX.MainLoop
 import TLX.Session
+import TLX.TcpOut
 namespace TLX.Props.Translated
 open TLX TLX.PyRt TLX.Lemmas.Translated TLX.Quic.PktNum
 
@@ -361,5 +362,31 @@ theorem run_classify_eq_model {κ : Type} (o : MainLoop.Opts) (p : MainLoop.Pkt)
 example : Gen.Py.run_classify false true [0x43, 1] true false true true = .ok .fall { acts := [.quic] } ∧
     Gen.Py.run_classify true false [0x16] true false false false = .ok .fall { acts := [] } ∧
     Gen.Py.run_classify false true [0x03] false false true true = .ok .fall { acts := [] } := by decide
+
+/-! ### tlexport/output_builder.py, tlexport/quic/quic_output_builder.py -/
+
+/-- `OutputBuilder.__init__`: never raises (the `portmap[…]` read is guarded), exports the model's `exportedServerPort`,
+    keeps the client port, falls back to 8080, starts both sequence numbers at 1 -/
+theorem output_builder_init_eq_model (sp cp : Nat) (portmap : Nat → Option Nat) (keep : Bool) :
+    Gen.Py.output_builder_init sp cp portmap keep =
+      .ok () { server_port_ := TcpOut.exportedServerPort keep portmap sp, client_port_ := cp, default_port := 8080,
+               server_seq := 1, client_seq := 1 } := by
+  unfold Gen.Py.output_builder_init TcpOut.exportedServerPort
+  cases keep <;> cases h : portmap sp <;> simp [h, dictGetE]
+
+example : Gen.Py.output_builder_init 443 5000 (fun k => if k = 443 then some 8443 else none) false =
+    .ok () { server_port_ := 8443, client_port_ := 5000, default_port := 8080, server_seq := 1, client_seq := 1 } ∧
+    Gen.Py.output_builder_init 444 5000 (fun k => if k = 443 then some 8443 else none) false =
+    .ok () { server_port_ := 8080, client_port_ := 5000, default_port := 8080, server_seq := 1, client_seq := 1 } := by decide
+
+/-- `QUICOutputbuilder.__init__`: the same port choice -/
+theorem quic_output_builder_init_eq_model (sp cp : Nat) (portmap : Nat → Option Nat) (keep : Bool) :
+    Gen.Py.quic_output_builder_init sp cp portmap keep =
+      .ok () { server_port_ := TcpOut.exportedServerPort keep portmap sp, client_port_ := cp, default_port := 8080 } := by
+  unfold Gen.Py.quic_output_builder_init TcpOut.exportedServerPort
+  cases keep <;> cases h : portmap sp <;> simp [h, dictGetE]
+
+example : Gen.Py.quic_output_builder_init 443 5000 (fun _ => none) true =
+    .ok () { server_port_ := 443, client_port_ := 5000, default_port := 8080 } := by decide
 
 end TLX.Props.Translated
